@@ -48,6 +48,8 @@ var mutationDocs = univ.Js(
 	`{"a":{"a":[3,2,1],"b":{"b":2,"a":1}},"b":{"c":3,"a":[0,-1]}}`, `{"a":"cba","b":"é😀a"}`, `{"a":[3,"a",null,[2,1],{"a":1}],"b":null}`,
 	`[[[3,1,2]],[[2,1]]]`, `{"a":[2,1],"b":[1,2]}`, `{"a":[],"b":{}}`, `[{"a":[3,1,2]},{"a":[9,7,8]}]`, `{"a":1,"b":2}`, `null`,
 	`{"a":[{"k":"b"},{"k":"a"},{"k":"c"}],"b":[{"k":2},{"k":"x"},{"k":1}]}`, `[1]`, `[2,1]`, `{"a":[true,false,null],"b":[1.5,-1,0]}`,
+	// already in order (an "is it sorted already?" shortcut returns the caller's list itself)
+	`[1,2,3]`, `{"a":[{"k":1,"t":3},{"k":2,"t":2},{"k":3,"t":1}],"b":["a","b","c"]}`, `[{"k":1,"t":2},{"k":2,"t":1}]`,
 	`[1,null,2]`, `{"a":[null,1,null,2],"b":[null]}`, `{"a":{},"b":{"k":1,"j":2}}`, `{"a":{"k":0},"b":{}}`, `{"a":[9,8,7,6,5,4,3,2,1,0,"x"],"b":[0,1,2,3,4,5,6,7,8,9,10,11]}`,
 )
 
@@ -94,6 +96,17 @@ func c06Exprs(thorough bool) []string {
 	for _, c := range calls {
 		for _, ctx := range ctxs {
 			add(strings.Replace(ctx, "%s", c, -1))
+		}
+	}
+	// direct nestings of two calls (f(g(x))): a fast path keyed on the shape of the argument expression, or an
+	// inner call that hands back its input uncopied (already sorted, single element) to an outer call that
+	// works in place, only shows in the nesting, not in either call alone nor in the piped form
+	for _, x := range []string{"@", "a", "b"} {
+		for _, in := range []string{"sort(%s)", "sort_by(%s,&@)", "sort_by(%s,&k)", "reverse(%s)", "to_array(%s)", "not_null(%s)", "map(&@,%s)", "values(%s)", "keys(%s)", "merge(%s)", "%s[*]", "%s[]", "%s[?@]", "%s[:]"} {
+			inner := strings.Replace(in, "%s", x, -1)
+			for _, outer := range []string{"reverse(%s)", "sort(%s)", "to_array(%s)", "not_null(%s)", "sort_by(%s,&@)", "sort_by(%s,&k)", "sort_by(%s,&t)", "max_by(%s,&k)", "map(&@,%s)", "values(%s)", "%s[::-1]", "join(',',%s)", "merge(%s,%s)", "[%s,%s]"} {
+				add(strings.Replace(outer, "%s", inner, -1))
+			}
 		}
 	}
 	for _, fr := range []*univ.Fragment{univ.CoreFragment(), univ.ProjFragment()} {
